@@ -1,21 +1,21 @@
 # C03: a run resumed from a saved state is indistinguishable from an uninterrupted run.
 #
-# Oracle on the implementation alone (engine.py): for generated configurations and histories, an uninterrupted run
+# Oracle on the implementation alone (c03_engine.py): for generated configurations and histories, an uninterrupted run
 # (U), a run that writes its state after step K and goes on (A), and a fresh instance that loads that state, writes
 # it back, re-executes step K and goes on (B), for EVERY K of the history and both state formats; A = U, B = A per
 # step (values, energies, atomic forces, reported free-energy lines) and in the final state; the state written
 # right after loading equals the loaded file byte for byte.
-# Tie (tie.py): the extracted resume protocol + object models (coq/C03) predict the A and B trajectories and which
+# Tie (c03_tie.py): the extracted resume protocol + object models (coq/C03) predict the A and B trajectories and which
 # fields the state file carries; compared with the implementation for the modelled objects.
 import os, sys, json
 HERE = os.path.dirname(os.path.abspath(__file__))
 if HERE not in sys.path:
     sys.path.insert(0, HERE)
 import vcommon as V
-import resume as R
-import families as F
-import engine as E
-import tie as TIE
+import c03_resume as R
+import c03_families as F
+import c03_engine as E
+import c03_tie as TIE
 
 PROP = "coq/C03/Properties_C03.v"
 EXTRACT = "coq/C03/Extract_C03.v"
